@@ -19,7 +19,7 @@ RULE = ("E1: every model of the stated families x every non-empty query set x ev
         "compared per named assignment. non-trivial = distinct (model, query, evidence, virtual) whose posterior differs "
         "from the prior marginal of the query")
 BOUNDS = {
-    "quick": "core: all 29 DAGs on <=3 binary nodes x every column assignment from a 2-element alphabet (1352+ nets), "
+    "quick": "core: the isomorphism classes of DAGs on <=3 binary nodes x every column assignment from a 2-element alphabet, "
              "full option product; families: 25 3-node DAGs x cardvecs {(2,3,2),(3,2,2),(1,2,3)} x 3 column families with "
              "virtual evidence; labeling deviations (5 int + 5 str relabelings, 5 state styles, multi/tuple names) at "
              "deviation bound 1 on 50 models; 31 iso classes of 4-node DAGs, |Q|<=2,|E|<=2",
@@ -59,7 +59,8 @@ def groups(tier, seed):
     d3 = all_dags(3)
     k = 2 if tier == "quick" else 3
     for n in (1, 2, 3):
-        for d in core_descs(n, all_dags(n), k):
+        # quick: isomorphism classes (relabelings are a separate axis below); thorough: every labelled DAG
+        for d in core_descs(n, iso_classes(n) if tier == "quick" else all_dags(n), k):
             out.append({"bn": d, "lab": ["str", None, "def"], "virt": 0, "qmax": None, "emax": None})
     # families with cardinalities, virtual evidence
     fams = ((1, 2, 1),) if tier == "quick" else ((0, 0, 0), (1, 1, 0), (1, 2, 1), (2, 1, 2), (0, 1, 2), (1, 3, 4))
@@ -72,6 +73,13 @@ def groups(tier, seed):
     for d in dev_models:
         for lab in _labelings(3, tier, False)[1:]:
             out.append({"bn": d, "lab": list(lab), "virt": 1 if lab[0] in ("str", "multi") else 0, "qmax": None, "emax": None})
+    # latent subsets (pruning must keep latent ancestors): every iso class x every latent subset of size 1-2
+    for d in family_descs(3, iso_classes(3) if tier == "quick" else d3, [(2, 3, 2)], fams=((1, 2, 1),), fps=(0,)):
+        for lat in ([0], [1], [2], [0, 1], [0, 2], [1, 2]):
+            out.append({"bn": d, "lab": ["str", None, "str"], "virt": 0, "qmax": None, "emax": None, "latents": lat})
+    for d in family_descs(4, iso_classes(4), [(2, 2, 2, 2)], fams=((1, 2, 1),), fps=()):
+        for lat in ([0], [3], [1, 2]):
+            out.append({"bn": d, "lab": ["str", None, "def"], "virt": 0, "qmax": 1, "emax": 1, "latents": lat})
     # 4 nodes
     d4 = iso_classes(4) if tier == "quick" else all_dags(4)
     for d in family_descs(4, d4, [(2, 2, 2, 2)] if tier == "quick" else [(2, 2, 2, 2), (2, 3, 2, 2)], fams=((1, 2, 1), (0, 0, 0)), fps=()):
@@ -150,7 +158,7 @@ def run_group(g, tier):
     ref = bn_from_desc(g["bn"])
     lab = Labeling(ref.n, ref.card, g["lab"][0], g["lab"][1], g["lab"][2])
     joint = ref.joint()
-    model = make_bn(ref, lab)
+    model = make_bn(ref, lab, latents=g.get("latents", ()))
     model.check_model()
     st.states += 1
     prior = {}
@@ -166,7 +174,7 @@ def run_group(g, tier):
         for order in (_orders(ref.n, q, e, tier == "thorough") if (not virt or tier == "thorough") else ["greedy", "MinFill", None]):
             for jt in (True, False):
                 case = {"bn": g["bn"], "lab": g["lab"], "q": q, "e": [list(x) for x in e], "virt": [[v, list(l)] for v, l in virt],
-                        "order": order, "joint": jt, "mn": False}
+                        "order": order, "joint": jt, "mn": False, "latents": g.get("latents", [])}
                 _one(st, model, lab, ref, case, post)
         # no-pruning path through the Markov network (normalised by the harness)
         if not virt:
@@ -215,7 +223,7 @@ def _state_prob(st, model, lab, ref, joint, g):
         for states in product(*[range(ref.card[v]) for v in sub]):
             ev = dict(zip(sub, states))
             exp = joint.reduce(ev).total()
-            case = {"bn": g["bn"], "lab": g["lab"], "sp": [[v, s] for v, s in ev.items()]}
+            case = {"bn": g["bn"], "lab": g["lab"], "sp": [[v, s] for v, s in ev.items()], "latents": g.get("latents", [])}
             st.evals += 1
             st.transitions += 1
             try:
@@ -239,7 +247,7 @@ def _state_prob(st, model, lab, ref, joint, g):
                     rows.append(ev)
             if not rows:
                 continue
-            case = {"bn": g["bn"], "lab": g["lab"], "pp": list(sub)}
+            case = {"bn": g["bn"], "lab": g["lab"], "pp": list(sub), "latents": g.get("latents", [])}
             df = pd.DataFrame([[lab.state(v, ev[v]) for v in sub] for ev in rows], columns=[lab.name(v) for v in sub])
             if g["lab"][2] in ("tuple", "mixed"):
                 continue
@@ -269,11 +277,11 @@ def replay(case):
     st = Stats()
     ref = bn_from_desc(case["bn"])
     lab = Labeling(ref.n, ref.card, case["lab"][0], case["lab"][1], case["lab"][2])
-    model = make_bn(ref, lab)
+    model = make_bn(ref, lab, latents=case.get("latents", ()))
     if "q" in case:
         _one(st, model, lab, ref, case)
     else:
-        g = {"bn": case["bn"], "lab": case["lab"]}
+        g = {"bn": case["bn"], "lab": case["lab"], "latents": case.get("latents", [])}
         _state_prob(st, model, lab, ref, ref.joint(), g)
         key = "sp" if "sp" in case else "pp"
         st.violations = [v for v in st.violations if v["case"].get(key) == case[key]]
